@@ -417,6 +417,43 @@ def run(ck):
                 types=len(types_used), rebuilt_composite=rebuilt_composite,
                 sample={"class": tag, "program": prog_desc} if ip < 2 else None)
 
+    # ---- functions DERIVED from another one at an explicitly requested temperature take part in sums like any other ----------
+    for idv in range(ck.n(6, 30)):
+        kind = [k for k in KINDS if k != "OverdampedBrownian-HighTemperature"][idv % 5]
+        Tst, Treq = ((300.0, 77.0), (77.0, 300.0), (150.0, 300.0))[idv % 3]
+        p = KINDS[kind](rng.choice([10.0, 20.0, 35.0]), rng, Tst)
+        inp = {"derived_from": "SpectralDensity", "params": dict(p), "temperature_requested": Treq}
+        ck.case(("derived", idv, kind, Tst, Treq), nontrivial=True, cls="derived", types=1)
+        try:
+            with energy_units("1/cm"):
+                sd = SpectralDensity(ta, dict(p))
+                ref_req = CorrelationFunction(ta, dict(p, T=Treq))
+                ref_st = CorrelationFunction(ta, dict(p, T=Tst))
+            der = sd.get_CorrelationFunction(temperature=Treq)
+            d_der = numpy.array(der.data).copy()
+        except Exception as e:
+            ck.fail("raises:derived", "SpectralDensity.get_CorrelationFunction(temperature=) raised %r" % (e,), inp)
+            continue
+        # which temperature the derived function describes is decided by its data, not by its label
+        at_req = relerr(d_der, ref_req.data) < 1e-9
+        at_st = relerr(d_der, ref_st.data) < 1e-9
+        inp["data_are_those_of"] = "requested" if at_req else ("stored" if at_st else "neither")
+        for other, same, nm in ((ref_req, at_req, "requested"), (ref_st, at_st, "stored")):
+            try:
+                sm = der + other
+                status = "ok"
+            except Exception as e:
+                status = short(e)
+            if same and status != "ok":
+                ck.fail("refused:derived", "a correlation function derived at %g K and one constructed at the same temperature (equal data) "
+                        "cannot be added: %s" % (Treq if nm == "requested" else Tst, status), dict(inp, other=nm))
+            elif same:
+                if relerr(sm.data, d_der + numpy.array(other.data)) > 1e-10 or abs(sm.lamb - der.lamb - other.lamb) > 1e-10 * abs(sm.lamb):
+                    ck.fail("data:derived:add", "sum with a derived function: data / reorganisation energy are not the sums", dict(inp, other=nm))
+            elif status == "ok" and (at_req or at_st):
+                ck.fail("temperature:not-refused:derived", "a function whose data are those of %g K was added to one at %g K" %
+                        ((Treq, Tst) if at_req else (Tst, Treq)), dict(inp, other=nm))
+
     # ---- model -----------------------------------------------------------------------------------
     out = ck.drive(DRIVER, lines)
     if out is not None and len(out) != len(lines):
